@@ -94,7 +94,23 @@ type ReplayFile struct {
 	Trace    []string `json:"trace_tail"`
 	Source   string   `json:"workload_source,omitempty"`
 	MinRuns  int      `json:"minimisation_runs"`
+	// History says where in which worker's share of which plan the run was: if the run alone does not
+	// reproduce the violation in a fresh process, the product carries state from one run to the next
+	// inside a process (a cache, a pool, a counter), and the replay re-executes the runs before it.
+	History *HistoryRef `json:"process_history,omitempty"`
 }
+
+type HistoryRef struct {
+	Tier     string  `json:"tier"`
+	Seed     uint64  `json:"plan_seed"`
+	Worker   int     `json:"worker"`
+	Workers  int     `json:"workers"`
+	UpTo     int     `json:"plan_index"`
+	Original RunSpec `json:"unminimised_spec"`
+}
+
+// histRef is set by workerRun for the run at hand (nil in every other mode).
+var histRef *HistoryRef
 
 func TestWorker(t *testing.T) {
 	path := os.Getenv("SIMCHECK_JOB")
@@ -263,7 +279,27 @@ func workerRun(t *testing.T, job Job, sum *Summary) {
 			v2 := exec1(t, specWithChoices(spec, v))
 			sum.DetChecked++
 			if v2.LogHash != v.LogHash || v2.Sig != v.Sig {
-				sum.DetMismatch = append(sum.DetMismatch, fmt.Sprintf("plan[%d]: %s/%s vs %s/%s", idx, v.LogHash, v.Sig, v2.LogHash, v2.Sig))
+				// Same spec, same choices, different execution. Either the product keeps state from one run
+				// to the next inside the process (then a third run agrees with the second), or something that
+				// no seam controls decides (Go's choice among ready select cases, a goroutine started inside
+				// the standard library), or the simulator itself is broken. The last is what the determinism
+				// self-test rules out on the unchanged tree; here it is told apart from the first by a third run.
+				v3 := exec1(t, specWithChoices(spec, v))
+				switch {
+				case v3.LogHash == v2.LogHash && v3.Sig == v2.Sig:
+					sum.Probes["repetition-differs:process-level-state-in-the-product"]++
+				case job.Property == "C14":
+					// C14 is the property that says this must not happen
+					sum.Probes["repetition-differs:uncontrolled-choice-in-the-product"]++
+				default:
+					sum.DetMismatch = append(sum.DetMismatch, fmt.Sprintf("plan[%d]: %s/%s vs %s/%s vs %s/%s", idx, v.LogHash, v.Sig, v2.LogHash, v2.Sig, v3.LogHash, v3.Sig))
+				}
+				// a repetition that violates the property is a run that violates the property
+				for _, vr := range []*Verdict{v2, v3} {
+					if !v.Bad() && vr.Bad() && !vr.Infra() {
+						v = vr
+					}
+				}
 			}
 		}
 		if v.Infra() {
@@ -282,6 +318,7 @@ func workerRun(t *testing.T, job Job, sum *Summary) {
 		}
 		rec := &ViolationRec{Sig: v.Sig, Class: v.Class, Clause: v.Clause, Msg: v.Msg, Count: 1, FirstIdx: idx, Spec: spec}
 		bySig[v.Sig] = rec
+		histRef = &HistoryRef{Tier: job.Tier, Seed: job.Seed, Worker: job.Worker, Workers: job.Workers, UpTo: idx, Original: specWithChoices(spec, v)}
 		if len(bySig) <= maxMin {
 			ms, mv, runs := Minimise(t, spec, v)
 			rec.MinRuns = runs
@@ -377,6 +414,9 @@ func specWithChoices(spec RunSpec, v *Verdict) RunSpec {
 func writeReplay(dir, prop string, spec RunSpec, v *Verdict, runs int, worker int) string {
 	os.MkdirAll(dir, 0o755)
 	rf := ReplayFile{Property: prop, Sig: v.Sig, Class: v.Class, Clause: v.Clause, Msg: v.Msg, LogHash: v.LogHash, Spec: spec, Output: v.Output, Trace: v.LogTail, MinRuns: runs}
+	if spec.P("free", 0) != 1 {
+		rf.History = histRef
+	}
 	for i, c := range v.Choices {
 		if c != 0 {
 			rf.Tags = append(rf.Tags, fmt.Sprintf("%d:%s=%d", i, v.Tags[i], c))
@@ -427,9 +467,36 @@ func workerReplay(t *testing.T, job Job, sum *Summary) {
 	} else {
 		v = exec1(t, rf.Spec)
 	}
+	mode := "single-run"
+	if v.Sig != rf.Sig && rf.History != nil && rf.Spec.P("free", 0) != 1 {
+		// The run alone does not show it in a fresh process: re-execute what this worker had executed
+		// before it (same plan, same share), then the run as it was found, then the minimised run.
+		h := rf.History
+		plan, err := Plan(t, rf.Property, h.Tier, h.Seed)
+		if err == nil && h.Workers > 0 {
+			n := 0
+			for idx, spec := range plan {
+				if idx >= h.UpTo {
+					break
+				}
+				if idx%h.Workers != h.Worker || spec.P("free", 0) == 1 {
+					continue
+				}
+				exec1(t, spec)
+				n++
+			}
+			for _, cand := range []RunSpec{h.Original, rf.Spec} {
+				if hv := exec1(t, cand); hv.Sig == rf.Sig {
+					v = hv
+					mode = fmt.Sprintf("process-history:%d", n)
+					break
+				}
+			}
+		}
+	}
 	sum.account(rf.Spec, v)
 	sum.Replay = v
-	sum.Hashes = map[string]string{"recorded_sig": rf.Sig, "recorded_hash": rf.LogHash}
+	sum.Hashes = map[string]string{"recorded_sig": rf.Sig, "recorded_hash": rf.LogHash, "replay_mode": mode}
 	if v.Infra() {
 		sum.Infra = append(sum.Infra, v.Msg)
 	}
